@@ -349,6 +349,12 @@ class Cycle:
         return f(rng)
 
 
+def lu(rng, lo, hi):
+    """log-uniform on [lo, hi]; degenerate ranges (thresholds moved by a code change) collapse to lo"""
+    lo = max(lo, 1e-300)
+    return log_uniform(rng, lo, hi) if hi > lo else lo
+
+
 def away(x, t):
     """x is a factor 2 away from the threshold t"""
     return not (t / 2 <= abs(x) <= 2 * t)
@@ -364,10 +370,11 @@ class Dom:
         return 0.0
 
     def s_tiny(self, rng):
-        while True:
-            s = log_uniform(rng, 1e-18, 1e-1) * rng.choice([-1.0, 1.0])
+        for _ in range(500):
+            s = lu(rng, 1e-18, 1e-1) * rng.choice([-1.0, 1.0])
             if away(s, self.te):
-                return s
+                break
+        return s
 
     def s_band_edge(self, rng):       # just inside / just outside the branch of exp (a factor 2..4 from it)
         return self.te * rng.choice([1 / rng.uniform(2, 4), rng.uniform(2, 4)]) * rng.choice([-1.0, 1.0])
@@ -379,16 +386,16 @@ class Dom:
 
     # ---- vector part
     def v_small(self, rng):
-        return rand_unit(rng) * log_uniform(rng, 1e-12, 1e-2)
+        return rand_unit(rng) * lu(rng, 1e-12, 1e-2)
 
     def v_mid(self, rng):
         return rand_unit(rng) * rng.uniform(0.01, math.pi - 0.01)
 
     def v_near_pi(self, rng):
-        return rand_unit(rng) * (math.pi - log_uniform(rng, 1e-9, 1e-2))
+        return rand_unit(rng) * (math.pi - lu(rng, 1e-9, 1e-2))
 
     def v_axis(self, rng):
-        return np.eye(3)[rng.integers(3)] * rng.choice([-1.0, 1.0]) * log_uniform(rng, 1e-12, math.pi - 1e-6)
+        return np.eye(3)[rng.integers(3)] * rng.choice([-1.0, 1.0]) * lu(rng, 1e-12, math.pi - 1e-6)
 
     def v_big(self, rng):
         return rand_unit(rng) * rng.uniform(math.pi + 0.01, 3 * math.pi)
@@ -413,10 +420,11 @@ class Dom:
     def log_exp_classes(self):
         def mk(f):
             def g(rng):
-                while True:
+                for _ in range(500):
                     a = f(rng)
                     if self.log_exp_ok(a[0]):
-                        return a
+                        break
+                return a
             return g
         return [(lab, mk(f)) for lab, f in self.exp_classes(with_zero=False)]
 
@@ -430,7 +438,7 @@ class Dom:
         elif r < 0.7:
             u = np.r_[rng.normal() * 1e-3, rand_unit(rng)]
         else:
-            u = np.r_[rng.choice([-1.0, 1.0]), rand_unit(rng) * log_uniform(rng, lo, 1e-1)]
+            u = np.r_[rng.choice([-1.0, 1.0]), rand_unit(rng) * lu(rng, lo, 1e-1)]
         return u / np.linalg.norm(u)
 
     def log_ok(self, p, lo=0.0):
@@ -441,41 +449,43 @@ class Dom:
 
     def _retry(self, f, lo):
         def g(rng):
-            while True:
+            for _ in range(500):
                 p = f(rng, lo)
                 if self.log_ok(p, lo):
-                    return [p]
+                    break
+            return [p]
         return g
 
     def p_near_unit(self, rng, lo):
-        return self.unit_dir(rng, lo) * (1.0 + rng.choice([-1.0, 1.0]) * log_uniform(rng, 1e-18, 1e-2))
+        return self.unit_dir(rng, lo) * (1.0 + rng.choice([-1.0, 1.0]) * lu(rng, 1e-18, 1e-2))
 
     def p_band_edge(self, rng, lo):
         d = self.te * rng.choice([1 / rng.uniform(2.2, 4), rng.uniform(2.2, 4)])
         return self.unit_dir(rng, lo) * math.exp(rng.choice([-1.0, 1.0]) * d)
 
     def p_generic(self, rng, lo):
-        return self.unit_dir(rng, lo) * log_uniform(rng, 1e-3, 1e3)
+        return self.unit_dir(rng, lo) * lu(rng, 1e-3, 1e3)
 
     def p_small_vec(self, rng, lo):
         """vector part between 2.5 t_unitvec and 1e-6 in absolute terms, scalar part O(1) (any sign)"""
-        return np.r_[rng.uniform(0.2, 3) * rng.choice([-1.0, 1.0]), rand_unit(rng) * log_uniform(rng, max(2.5 * self.tu, 1e-300), 1e-6)]
+        return np.r_[rng.uniform(0.2, 3) * rng.choice([-1.0, 1.0]), rand_unit(rng) * lu(rng, max(2.5 * self.tu, 1e-300), 1e-6)]
 
     def p_small_vec_neg(self, rng, lo):
-        return np.r_[-rng.uniform(0.2, 3), rand_unit(rng) * log_uniform(rng, max(2.5 * self.tu, 1e-300), 1e-6)]
+        return np.r_[-rng.uniform(0.2, 3), rand_unit(rng) * lu(rng, max(2.5 * self.tu, 1e-300), 1e-6)]
 
     def p_acos_zero(self, rng):
         """positive scalar part, |v| <= 1e-9 |s| (above the unitvec threshold): acos(s/|p|) = acos(1.0) = 0 exactly,
         log returns a zero vector part and exp of that divides 0 by 0 (finding)"""
-        while True:
+        for _ in range(500):
             sc = rng.uniform(0.2, 3)
-            p = np.r_[sc, rand_unit(rng) * sc * log_uniform(rng, 1e-13, 1e-9)]
+            p = np.r_[sc, rand_unit(rng) * sc * lu(rng, 1e-13, 1e-9)]
             if np.linalg.norm(p[1:]) > 2.5 * self.tu and away(math.log(np.linalg.norm(p)), self.te):
-                return [p]
+                break
+        return [p]
 
     def p_below(self, rng):
         """non-zero vector part at most half the unitvec threshold: log raises TypeError (finding)"""
-        return [np.r_[rng.uniform(0.2, 3) * rng.choice([-1.0, 1.0]), rand_unit(rng) * log_uniform(rng, 1e-3, 0.5) * self.tu]]
+        return [np.r_[rng.uniform(0.2, 3) * rng.choice([-1.0, 1.0]), rand_unit(rng) * lu(rng, 1e-3, 0.5) * self.tu]]
 
     def p_real(self, rng):
         return [np.r_[rng.uniform(0.2, 3) * rng.choice([-1.0, 1.0]), 0.0, 0.0, 0.0]]
@@ -527,13 +537,13 @@ def add_models(ctx, g, th):
     M = 'Model.C12_ExpLog'
     C = lambda nm, classes: Cycle(ctx, nm, classes)
     Q = lambda q: Quaternion(q)
-    v3 = [('tiny', lambda rng: [rand_unit(rng) * log_uniform(rng, 1e-18, 0.5 * D.tu) if D.tu > 0 else np.zeros(3)]),
-          ('small', lambda rng: [rand_unit(rng) * log_uniform(rng, 2 * D.tu + 1e-300, 1e-3)]),
-          ('generic', lambda rng: [rng.normal(size=3) * log_uniform(rng, 1e-3, 1e3)]),
+    v3 = [('tiny', lambda rng: [rand_unit(rng) * lu(rng, 1e-18, 0.5 * D.tu) if D.tu > 0 else np.zeros(3)]),
+          ('small', lambda rng: [rand_unit(rng) * lu(rng, 2 * D.tu + 1e-300, 1e-3)]),
+          ('generic', lambda rng: [rng.normal(size=3) * lu(rng, 1e-3, 1e3)]),
           ('zero', lambda rng: [np.zeros(3)])]
-    q4 = [('generic', lambda rng: [rng.normal(size=4) * log_uniform(rng, 1e-6, 1e6)]),
-          ('tiny', lambda rng: [rand_unit(rng, 4) * log_uniform(rng, 1e-18, 0.5 * D.tn) if D.tn > 0 else np.zeros(4)]),
-          ('small', lambda rng: [rand_unit(rng, 4) * log_uniform(rng, 2 * D.tn + 1e-300, 1e-6)]),
+    q4 = [('generic', lambda rng: [rng.normal(size=4) * lu(rng, 1e-6, 1e6)]),
+          ('tiny', lambda rng: [rand_unit(rng, 4) * lu(rng, 1e-18, 0.5 * D.tn) if D.tn > 0 else np.zeros(4)]),
+          ('small', lambda rng: [rand_unit(rng, 4) * lu(rng, 2 * D.tn + 1e-300, 1e-6)]),
           ('zero', lambda rng: [np.zeros(4)])]
     g.model('m_vnorm3', [('v', 'V3')], 'S', coq='m_vnorm3', module=M, num_fn=lambda v: base.norm(v), sampler=C('vnorm3', v3))
     g.model('m_qnorm4', [('q', 'V4')], 'S', coq='m_qnorm4', module=M, num_fn=lambda q: Q(q).norm(), sampler=C('qnorm4', q4))
@@ -749,7 +759,7 @@ def oracle_explog(ctx, th):
                     chk('exp-log:small-vector-part', R.vec, p, max(1.0, float(np.linalg.norm(p))), p)
             # log(exp q) with e^s sin|v| below the threshold
             sc = rng.uniform(-3, 3)
-            q = np.r_[sc, rand_unit(rng) * log_uniform(rng, 1e-3, 0.4) * D.tu * math.exp(-sc)]
+            q = np.r_[sc, rand_unit(rng) * lu(rng, 1e-3, 0.4) * D.tu * math.exp(-sc)]
             ctx.count('hit:oracle-exp:below-unitvec')
             L = guarded('log:vector-part-below-unitvec-threshold', q, lambda: Quaternion(q).exp().log())
             if L is not None:
@@ -798,7 +808,11 @@ def run(ctx):
         if consts_ok:
             ctx.prove('theories/Props/C12_explog.v')
         with ctx.timed('correspond'):
-            sym_num(ctx, g, MOD, ctx.n(25, 400))
+            try:
+                sym_num(ctx, g, MOD, ctx.n(25, 400))
+            except Exception as ex:   # keep searching for a failing input
+                ctx.fail('harness:correspondence', f"the model/implementation correspondence could not be run: {type(ex).__name__}: {ex}",
+                         {'detail': repr(ex)}, no_input=True)
     # the search for a failing input always runs (also when the model could not be re-established)
     with ctx.timed('oracle'):
         oracle(ctx)
